@@ -11,6 +11,10 @@ NOTE = ("Trusted: the symgo engine (fork of x/tools go/ssa/interp + SMT encoding
 
 # id -> (claim text, design ref)
 CLAIMS = {
+ "C12": ("For all records of 1..2 (thorough 3) fields of 0..2 (thorough 3) arbitrary bytes each: byte order of ixkey.Spec.Key == field "
+         "order == Spec.Compare, equal keys iff equal tuples (modulo trailing empties), Decode/Decode1 recover the fields, HasPrefix/"
+         "SplitPrefixSuffix/JoinPrefixSuffix/TruncFunc and db19.rangeEnd select exactly the keys whose leading fields match, incl. "
+         "the Fields2 rule (solver verdict over all byte values per length class).", "4 C12"),
  "C26": ("For all int64 operand pairs of + and -, all int64 operands of unary minus and +1, all int64 x a stated set of "
          "multipliers/divisors for * and /: the integer fast paths of core.OpAdd/OpSub/OpMul/OpDiv/OpAdd1/OpUnaryMinus return the "
          "exact integer when it fits in int64 and never a wrapped integer otherwise (solver verdict over all values).", "4 C26"),
